@@ -5,6 +5,7 @@ import (
 	"fmt"
 	"sort"
 	"strconv"
+	"time"
 
 	"tkestack.io/galaxy/verifsim/core"
 )
@@ -111,4 +112,31 @@ func Rotate[T any](s []T) []T {
 		return out
 	}
 	return s
+}
+
+// WaitForCacheSync replaces client-go's cache.WaitForCacheSync (which polls on the real clock): it polls the given
+// HasSynced functions on the simulated clock until all report true or stopCh is closed.
+func WaitForCacheSync(stopCh <-chan struct{}, cacheSyncs ...func() bool) bool {
+	for {
+		select {
+		case <-stopCh:
+			return false
+		default:
+		}
+		all := true
+		for _, f := range cacheSyncs {
+			if !f() {
+				all = false
+				break
+			}
+		}
+		if all {
+			return true
+		}
+		if !core.InTask() {
+			time.Sleep(100 * time.Millisecond)
+			continue
+		}
+		core.Sleep(100*time.Millisecond, false)
+	}
 }
